@@ -204,6 +204,7 @@ func doAbuse() {
 	valueDisposableBattery()
 	reentrantBattery()
 	outNilFieldBattery()
+	abnormalBattery()
 	tS0, tS1, tS2 := reflect.TypeOf((*S0)(nil)), reflect.TypeOf((*S1)(nil)), reflect.TypeOf((*S2)(nil))
 	tU := reflect.TypeOf((*unregistered)(nil))
 	c := godi.NewCollection()
